@@ -866,9 +866,13 @@ impl Entities {
     /// Is entity `a` an ancestor of entity `b`?
     /// Same semantics as `b in a` in the Cedar language
     pub fn is_ancestor_of(&self, a: &EntityUid, b: &EntityUid) -> bool {
+        // `b in a` is reflexive, whether or not `b` exists in the store
+        if a == b {
+            return true;
+        }
         match self.0.entity(b.as_ref()) {
             Dereference::Data(b) => b.is_descendant_of(a.as_ref()),
-            _ => a == b, // if b doesn't exist, `b in a` is only true if `b == a`
+            _ => false, // if b doesn't exist, `b in a` is only true if `b == a`
         }
     }
 
